@@ -46,12 +46,16 @@ class Classes:
     def of(self, x):
         reps = self.reps.setdefault(x.key, [])
         for r, i in reps:
-            if isinstance(x, FluentEntity) and isinstance(r, FluentEntity):
-                same = x.equals(r)
-            elif isinstance(x, FluentEntity) or isinstance(r, FluentEntity):
+            # the REAL method (Entity.equals / FluentEntity.equals), so that a change of `equals` is seen by the model too;
+            # objects of different classes never meet in one file/reference pair (FluentEntity.equals needs an `entry`)
+            if isinstance(x, FluentEntity) != isinstance(r, FluentEntity):
                 same = False
+            elif hasattr(x, "equals"):
+                same = bool(x.equals(r))
+            elif hasattr(r, "equals"):
+                same = bool(r.equals(x))         # x is a Junk object of the reference file (Junk has no `equals`)
             else:
-                same = (x.val == r.val)      # Entity.equals for every other class
+                same = (x.val == r.val)          # two Junk objects
             if same:
                 return i
         self.n += 1
@@ -70,10 +74,10 @@ def check_tokens(tup):
     return "%s %s %s" % (enc(tp), p, enc(msg))
 
 
-def model_file(path, ref):
+def model_file(path, ref, extra_tests=None, cls=None, with_ref=True):
     """tokens of one file for the `lint` op + a plain description for the oracle"""
     fp = P.getParser(path)
-    cls = Classes()
+    cls = cls if cls is not None else Classes()
     if ref is not None and os.path.isfile(ref):
         fp.readFile(ref)
         reference = list(fp.parse())
@@ -85,7 +89,7 @@ def model_file(path, ref):
     fp.readFile(path)
     contents = fp.ctx.contents
     current = fp.parse()
-    checker = checks.getChecker(File(path, path, locale=REFERENCE_LOCALE), extra_tests=None)
+    checker = checks.getChecker(File(path, path, locale=REFERENCE_LOCALE), extra_tests=extra_tests)
     if checker and checker.needs_reference:
         checker.set_reference(current)
     toks = [enc(path), enc(contents)] + reftoks + [str(len(current))]
@@ -189,6 +193,9 @@ def impl_case(case):
         line = "c19.lint %d %s" % (len(paths), " ".join(files))
         rel = lambda p: os.path.relpath(p, os.path.join(base, "cur"))
         return {"canon": canon(results), "line": line,
+                # the run with its state (round 4): results and the paths the callable was asked, in call order
+                "runline": "c19.run %d %s" % (len(paths), " ".join(files)),
+                "runcanon": canon(results) + " ;; asked" + "".join(" " + enc(p) for p in asked),
                 "results": [{"lineno": r["lineno"], "column": r["column"], "level": r["level"], "message": r["message"],
                              "path": rel(r["path"])} for r in results],
                 "asked": [rel(p) for p in asked], "files": described,
